@@ -138,32 +138,33 @@ def profile():
 
 # real functions: (key, source, clang filter, name, C name, C type of `this`, spec file or None, nparams)
 FUNCS = {
-    'seq':        (IBB, 'QXmppIbbDataIq::sequence', 'sequence', 'QXmppIbbDataIq_sequence', 'QXmppIbbDataIq', 'sequence.spec'),
-    'setseq':     (IBB, 'QXmppIbbDataIq::setSequence', 'setSequence', 'QXmppIbbDataIq_setSequence', 'QXmppIbbDataIq', 'setsequence.spec'),
-    'd_sid':      (IBB, 'QXmppIbbDataIq::sid', 'sid', 'QXmppIbbDataIq_sid', 'QXmppIbbDataIq', None),
-    'd_setsid':   (IBB, 'QXmppIbbDataIq::setSid', 'setSid', 'QXmppIbbDataIq_setSid', 'QXmppIbbDataIq', None),
-    'd_payload':  (IBB, 'QXmppIbbDataIq::payload', 'payload', 'QXmppIbbDataIq_payload', 'QXmppIbbDataIq', None),
-    'd_setpayload': (IBB, 'QXmppIbbDataIq::setPayload', 'setPayload', 'QXmppIbbDataIq_setPayload', 'QXmppIbbDataIq', None),
-    'o_sid':      (IBB, 'QXmppIbbOpenIq::sid', 'sid', 'QXmppIbbOpenIq_sid', 'QXmppIbbOpenIq', None),
-    'o_bs':       (IBB, 'QXmppIbbOpenIq::blockSize', 'blockSize', 'QXmppIbbOpenIq_blockSize', 'QXmppIbbOpenIq', None),
-    'c_sid':      (IBB, 'QXmppIbbCloseIq::sid', 'sid', 'QXmppIbbCloseIq_sid', 'QXmppIbbCloseIq', None),
-    'c_setsid':   (IBB, 'QXmppIbbCloseIq::setSid', 'setSid', 'QXmppIbbCloseIq_setSid', 'QXmppIbbCloseIq', None),
-    'method':     (TM, 'QXmppTransferJob::method', 'method', 'QXmppTransferJob_method', 'QXmppTransferJob', None),
-    'state':      (TM, 'QXmppTransferJob::state', 'state', 'QXmppTransferJob_state', 'QXmppTransferJob', None),
-    'filesize':   (TM, 'QXmppTransferJob::fileSize', 'fileSize', 'QXmppTransferJob_fileSize', 'QXmppTransferJob', None),
-    'setstate':   (TM, 'QXmppTransferJob::setState', 'setState', 'QXmppTransferJob_setState', 'QXmppTransferJob', None),
-    'terminate':  (TM, 'QXmppTransferJob::terminate', 'terminate', 'QXmppTransferJob_terminate', 'QXmppTransferJob', 'terminate.spec'),
-    'writedata':  (TM, 'QXmppTransferIncomingJob::writeData', 'writeData', 'QXmppTransferIncomingJob_writeData', 'QXmppTransferJob', 'writedata.spec'),
-    'checkdata':  (TM, 'QXmppTransferIncomingJob::checkData', 'checkData', 'QXmppTransferIncomingJob_checkData', 'QXmppTransferJob', 'checkdata.spec'),
-    'lookup_sid': (TM, 'QXmppTransferManagerPrivate::getIncomingJobBySid', 'getIncomingJobBySid', 'getIncomingJobBySid', 'QXmppTransferManagerPrivate', 'lookup_sid.spec'),
-    'lookup_req': (TM, 'QXmppTransferManagerPrivate::getJobByRequestId', 'getJobByRequestId', 'getJobByRequestId', 'QXmppTransferManagerPrivate', 'lookup_req.spec'),
-    'lookup_out': (TM, 'QXmppTransferManagerPrivate::getOutgoingJobByRequestId', 'getOutgoingJobByRequestId', 'getOutgoingJobByRequestId', 'QXmppTransferManagerPrivate', None),
-    'data':       (TM, 'QXmppTransferManager::ibbDataIqReceived', 'ibbDataIqReceived', 'ibbDataIqReceived', 'QXmppTransferManager', 'data.spec'),
-    'open':       (TM, 'QXmppTransferManager::ibbOpenIqReceived', 'ibbOpenIqReceived', 'ibbOpenIqReceived', 'QXmppTransferManager', 'open.spec'),
-    'close':      (TM, 'QXmppTransferManager::ibbCloseIqReceived', 'ibbCloseIqReceived', 'ibbCloseIqReceived', 'QXmppTransferManager', 'close.spec'),
-    'response':   (TM, 'QXmppTransferManager::ibbResponseReceived', 'ibbResponseReceived', 'ibbResponseReceived', 'QXmppTransferManager', 'response.spec'),
+    'seq':        (IBB, 'QXmppIbbDataIq', 'sequence', 'QXmppIbbDataIq_sequence', 'QXmppIbbDataIq', 'sequence.spec'),
+    'setseq':     (IBB, 'QXmppIbbDataIq', 'setSequence', 'QXmppIbbDataIq_setSequence', 'QXmppIbbDataIq', 'setsequence.spec'),
+    'd_sid':      (IBB, 'QXmppIbbDataIq', 'sid', 'QXmppIbbDataIq_sid', 'QXmppIbbDataIq', None),
+    'd_setsid':   (IBB, 'QXmppIbbDataIq', 'setSid', 'QXmppIbbDataIq_setSid', 'QXmppIbbDataIq', None),
+    'd_payload':  (IBB, 'QXmppIbbDataIq', 'payload', 'QXmppIbbDataIq_payload', 'QXmppIbbDataIq', None),
+    'd_setpayload': (IBB, 'QXmppIbbDataIq', 'setPayload', 'QXmppIbbDataIq_setPayload', 'QXmppIbbDataIq', None),
+    'o_sid':      (IBB, 'QXmppIbbOpenIq', 'sid', 'QXmppIbbOpenIq_sid', 'QXmppIbbOpenIq', None),
+    'o_bs':       (IBB, 'QXmppIbbOpenIq', 'blockSize', 'QXmppIbbOpenIq_blockSize', 'QXmppIbbOpenIq', None),
+    'c_sid':      (IBB, 'QXmppIbbCloseIq', 'sid', 'QXmppIbbCloseIq_sid', 'QXmppIbbCloseIq', None),
+    'c_setsid':   (IBB, 'QXmppIbbCloseIq', 'setSid', 'QXmppIbbCloseIq_setSid', 'QXmppIbbCloseIq', None),
+    'method':     (TM, 'QXmppTransferJob::', 'method', 'QXmppTransferJob_method', 'QXmppTransferJob', None),
+    'state':      (TM, 'QXmppTransferJob::', 'state', 'QXmppTransferJob_state', 'QXmppTransferJob', None),
+    'filesize':   (TM, 'QXmppTransferJob::', 'fileSize', 'QXmppTransferJob_fileSize', 'QXmppTransferJob', None),
+    'setstate':   (TM, 'QXmppTransferJob::', 'setState', 'QXmppTransferJob_setState', 'QXmppTransferJob', None),
+    'terminate':  (TM, 'QXmppTransferJob::', 'terminate', 'QXmppTransferJob_terminate', 'QXmppTransferJob', 'terminate.spec'),
+    'writedata':  (TM, 'QXmppTransferIncomingJob::', 'writeData', 'QXmppTransferIncomingJob_writeData', 'QXmppTransferJob', 'writedata.spec'),
+    'checkdata':  (TM, 'QXmppTransferIncomingJob::', 'checkData', 'QXmppTransferIncomingJob_checkData', 'QXmppTransferJob', 'checkdata.spec'),
+    'lookup_sid': (TM, 'QXmppTransferManagerPrivate', 'getIncomingJobBySid', 'getIncomingJobBySid', 'QXmppTransferManagerPrivate', 'lookup_sid.spec'),
+    'lookup_req': (TM, 'QXmppTransferManagerPrivate', 'getJobByRequestId', 'getJobByRequestId', 'QXmppTransferManagerPrivate', 'lookup_req.spec'),
+    'lookup_out': (TM, 'QXmppTransferManagerPrivate', 'getOutgoingJobByRequestId', 'getOutgoingJobByRequestId', 'QXmppTransferManagerPrivate', None),
+    'data':       (TM, 'QXmppTransferManager::ibb', 'ibbDataIqReceived', 'ibbDataIqReceived', 'QXmppTransferManager', 'data.spec'),
+    'open':       (TM, 'QXmppTransferManager::ibb', 'ibbOpenIqReceived', 'ibbOpenIqReceived', 'QXmppTransferManager', 'open.spec'),
+    'close':      (TM, 'QXmppTransferManager::ibb', 'ibbCloseIqReceived', 'ibbCloseIqReceived', 'QXmppTransferManager', 'close.spec'),
+    'response':   (TM, 'QXmppTransferManager::ibb', 'ibbResponseReceived', 'ibbResponseReceived', 'QXmppTransferManager', 'response.spec'),
 }
 
+# entry hooks anchor on the opening brace of the function body (the only unindented '{' line of a lowered function)
 HOOKS = [
     {'id': 'lookup_sid_found', 'fn': 'getIncomingJobBySid', 'before': r'^\s*return job;', 'emit': 'gh_found_idx = __i0;'},
     {'id': 'lookup_req_found', 'fn': 'getJobByRequestId', 'before': r'^\s*return job;', 'emit': 'gh_found_idx = __i0;'},
@@ -171,11 +172,12 @@ HOOKS = [
     {'id': 'open_job', 'fn': 'ibbOpenIqReceived', 'after': r'^\s*QXmppTransferJob\s*\*\s*job = getIncomingJobBySid\(', 'emit': 'gh_job = job;'},
     {'id': 'close_job', 'fn': 'ibbCloseIqReceived', 'after': r'^\s*QXmppTransferJob\s*\*\s*job = getIncomingJobBySid\(', 'emit': 'gh_job = job;'},
     {'id': 'response_job', 'fn': 'ibbResponseReceived', 'after': r'^\s*QXmppTransferJob\s*\*\s*job = getOutgoingJobByRequestId\(', 'emit': 'gh_job = job;'},
-    {'id': 'handed_to_writeData', 'fn': 'QXmppTransferIncomingJob_writeData', 'before': r'^\s*qint64 written = ',
+    {'id': 'block_sent', 'fn': 'ibbResponseReceived', 'after': r'^\s*ev_send_data\(&dataIq\);', 'emit': 'job->d->gh_blocks++;'},
+    {'id': 'handed_to_writeData', 'fn': 'QXmppTransferIncomingJob_writeData', 'after': r'^\{$',
      'emit': 'if (gh_wd_calls < 1000) gh_wd_calls++; gh_wd_job = self; gh_wd_data = data; self->d->gh_blocks++;'},
-    {'id': 'checkData_called', 'fn': 'QXmppTransferIncomingJob_checkData', 'before': r'^\s*if \(', 'count': 1,
+    {'id': 'checkData_called', 'fn': 'QXmppTransferIncomingJob_checkData', 'after': r'^\{$',
      'emit': 'if (gh_cd_calls < 1000) gh_cd_calls++; gh_cd_job = self;'},
-    {'id': 'terminate_called', 'fn': 'QXmppTransferJob_terminate', 'before': r'^\s*if \(\(self->d->state == ', 'count': 1,
+    {'id': 'terminate_called', 'fn': 'QXmppTransferJob_terminate', 'after': r'^\{$',
      'emit': 'if (gh_term_calls < 1000) gh_term_calls++; gh_term_job = self; gh_term_cause = cause;'},
 ]
 
@@ -236,30 +238,95 @@ def build(work, tier):
     proofs = []
     ctext = []
 
-    def add(pid, main, inline, protos, harness_args, kind, note, loops=0, finding=None, defines=(), timeout=600):
+    def add(pid, main, inline, protos, harness_args, note, loop_fn=None, finding=None, defines=(), timeout=600, solver=None):
+        """one enforced contract; `inline` real helpers are part of the verified text, `protos` are used through their contracts;
+        loop_fn: the (inlined or enforced) function whose loop is closed by its loop contract"""
         cname = FUNCS[main][3]
-        h = 'void h_%s(void) { %s }\n' % (pid, harness_args)
+        # every replaced callee is referenced from the harness, so that a change which removes the call is judged by the
+        # postconditions (VIOLATION) instead of failing in goto-instrument because the symbol is gone
+        keep = ''.join(' gh_keep = (const void *)&%s;' % FUNCS[k][3] for k in protos)
+        h = 'const void *gh_keep;\nvoid h_%s(void) { HAVOC_WORLD();%s %s }\n' % (pid, keep, harness_args)
         f, c = u.assemble(pid, inline, protos, main, h)
         ctext.append(c)
         sp = u.spec[main]
-        p = Proof(pid, f, 'h_' + pid, enforce=cname, replace=[FUNCS[k][3] for k in protos], kind=kind, include_dirs=[QT], timeout=timeout,
-                  loop_contracts=(loops > 0), expect_loops=loops, note=note, defines=list(defines))
-        p.labels = {'post': {cname: sp.labels}, 'inv': {cname: sp.inv_labels.get(0, [])}}
+        p = Proof(pid, f, 'h_' + pid, enforce=cname, replace=[FUNCS[k][3] for k in protos], kind='contract' if loop_fn else 'complete', include_dirs=[QT],
+                  timeout=timeout, loop_contracts=bool(loop_fn), expect_loops=1 if loop_fn else 0, note=note, defines=list(defines))
+        p.labels = {'post': {cname: sp.labels}}
+        if loop_fn:
+            p.labels['inv'] = {FUNCS[loop_fn][3]: u.spec[loop_fn].inv_labels.get(0, [])}
         p.expect_post = len(sp.labels)
         if finding:
             p.finding = finding
+        if solver is not None:
+            p.solver = list(solver)
         proofs.append(p)
         return p
 
     # ---------------------------------------------------------------- receiver: data block
-    for suffix, defs, fid, note in (('', ['FINDING_EXCLUDED'], None, 'counter in 0..65535 (fewer than 65536 blocks accepted so far)'),
-                                    ('_after_65536_blocks', ['FINDING_ONLY'], 'C19-ibb-seq-wrap', 'counter in 65536..INT_MAX-1 (65536 or more blocks accepted so far)')):
-        add('ibbDataIqReceived' + suffix, 'data', ['method', 'state'] + GETTERS_IQ, ['lookup_sid', 'writedata'],
-            'QXmppTransferManager *self; const QXmppIbbDataIq *iq; ibbDataIqReceived(self, iq);', 'complete',
-            'loop-free; every job list (witness), every sender/session/sequence number, ' + note, finding=fid, defines=defs)
+    for suffix, defs, fid, note in (('', ['FINDING_EXCLUDED'], None, 'both job counters in 0..65535 (fewer than 65536 blocks accepted so far)'),
+                                    ('_after_65536_blocks', ['FINDING_ONLY'], 'C19-ibb-seq-wrap', 'some job counter in 65536..INT_MAX-1 (65536 or more blocks accepted so far)')):
+        add('ibbDataIqReceived' + suffix, 'data', ['method', 'state', 'lookup_sid'] + GETTERS_IQ, ['writedata'],
+            'const QXmppIbbDataIq *iq; ibbDataIqReceived(&g_mgr, iq);',
+            'every job list (witness element; lookup loop closed by its loop contract), every sender/session/sequence number, ' + note,
+            loop_fn='lookup_sid', finding=fid, defines=defs)
+    # ---------------------------------------------------------------- receiver: open / close
+    add('ibbOpenIqReceived', 'open', ['method', 'setstate', 'lookup_sid', 'o_sid', 'o_bs'], [],
+        'const QXmppIbbOpenIq *iq; ibbOpenIqReceived(&g_mgr, iq);',
+        'every job list (witness element), every sender/session/block size', loop_fn='lookup_sid')
+    add('ibbCloseIqReceived', 'close', ['method', 'lookup_sid', 'c_sid'], ['checkdata', 'terminate'],
+        'const QXmppIbbCloseIq *iq; ibbCloseIqReceived(&g_mgr, iq);',
+        'every job list (witness element), every sender/session; checkData through its verified contract', loop_fn='lookup_sid')
+    # ---------------------------------------------------------------- sender
+    add('ibbResponseReceived', 'response', ['method', 'state', 'setstate', 'filesize', 'lookup_req', 'lookup_out', 'setseq', 'd_setsid', 'd_setpayload', 'c_setsid'], ['terminate'],
+        'const QXmppIq *iq; ibbResponseReceived(&g_mgr, iq);',
+        'every job list (witness element), every acknowledgement/error, every device read result; counter in 0..INT_MAX-1', loop_fn='lookup_req')
+    # (no extra thorough-tier work: nothing in this unit is bounded; MiniSat needs > 10 min where CaDiCaL needs 10-30 s)
+    # ---------------------------------------------------------------- job: writeData / checkData / terminate
+    add('writeData', 'writedata', [], [], 'qbytes data; QXmppTransferIncomingJob_writeData(ANY_JOB(), data);',
+        'loop-free; every block, every device result (-1, short write, full write)')
+    add('checkData', 'checkdata', [], ['terminate'], 'QXmppTransferIncomingJob_checkData(ANY_JOB());',
+        'loop-free; every announced size/hash, every byte count and hash state')
+    add('terminate', 'terminate', [], [], 'int cause; QXmppTransferJob_terminate(ANY_JOB(), cause);', 'loop-free; every state and cause')
+    # ---------------------------------------------------------------- job list look-ups (unbounded list, witness element)
+    add('getIncomingJobBySid', 'lookup_sid', [], [], 'qstr jid, sid; getIncomingJobBySid(&g_mp, jid, sid);',
+        'list of any length; loop closed by loop contract', loop_fn='lookup_sid')
+    add('getJobByRequestId', 'lookup_req', [], [], 'int direction; qstr jid, id; getJobByRequestId(&g_mp, direction, jid, id);',
+        'list of any length; loop closed by loop contract', loop_fn='lookup_req')
+    # ---------------------------------------------------------------- 16-bit sequence field of the data stanza
+    add('sequence', 'seq', [], [], 'const QXmppIbbDataIq *iq; QXmppIbbDataIq_sequence(iq);', 'loop-free')
+    add('setSequence', 'setseq', [], [], 'QXmppIbbDataIq *iq; quint16 seq; QXmppIbbDataIq_setSequence(iq, seq);', 'loop-free')
+    models = rd('types.h') + rd('model.h')
     return {
         'proofs': proofs, 'functions': b.functions, 'dropped': b.dropped, 'fired': b.fired, 'hooks': [h['id'] + ': ' + h['emit'] for h in HOOKS],
-        'assumed': [],
-        'assumes': scan_assumes(''.join(ctext[:1]) + open(os.path.join(QT, 'opaque.h')).read()),
-        'not_covered': [],
+        'assumed': [
+            'A-QBYTEARRAY-OPAQUE (units/C19/types.h): a QByteArray is an opaque value id, equal ids <=> equal contents, size() an uninterpreted function (> 0 iff non-empty)',
+            'A-QCRYPTOHASH: hash state is an opaque value, addData is an uninterpreted function of (state, block), result() a function of the state',
+            'A-QIODEVICE: write(b) returns -1 or 0..size(b), read(max) returns at most max bytes, close() clears the open flag; calls are logged in ghost variables',
+            'A-STANZA-ACCESSORS: QXmppStanza/QXmppIq to/from/id/type/error setters and getters store and return the field; default-constructed IQs have some non-empty id; QXmppIbbDataIq()/QXmppIbbCloseIq() construct a Set IQ with seq 0',
+            'A-FILEINFO: QXmppTransferFileInfo::size()/hash() are pure getters of the announced size and hash',
+            'A-JOBLIST: QList<QXmppTransferJob*> iteration visits elements 0..n-1 in order; list of any length abstracted by one witness element at an arbitrary index plus an arbitrary-valued stand-in for all others',
+            'client()->sendPacket(x) and QMetaObject::invokeMethod(job, "_q_terminated", Qt::QueuedConnection) are events recorded in a log (delivery itself is Qt/the stream)',
+            'representation bound: the per-job int counter is below INT_MAX and bytes done below 2^62 (precondition of the data/response handlers)',
+            'opaque-string axioms: equality only (qtmodel/opaque.h)',
+        ],
+        'assumes': scan_assumes(models + open(os.path.join(QT, 'opaque.h')).read()),
+        'not_covered': [
+            'SOCKS5 byte-stream path (QXmppSocks, QXmppByteStreamIq) and stream-initiation negotiation',
+            'Qt I/O devices and QCryptographicHash themselves; XML parsing/serialisation of the IBB stanzas (seq attribute, base64 payload)',
+            'the induction over a whole transfer ("receiver holds a byte-for-byte copy"): every step of sender and receiver and the final verdict are proved with the invariant counter = blocks mod 65536, their composition over a block sequence is not machine-checked',
+            'ibbDataIqReceived ignores the result of writeData (block acknowledged although the device refused it or wrote only part of it); the loss is caught by checkData only when a size or hash was announced -- with neither the transfer reports success',
+            'a job that is already finished is put back into transfer state by a further <open/> (setState is not guarded): observed, no claim',
+            'transfers of INT_MAX or more blocks (the increment of the int counter would overflow)',
+            'delivery of the progress/stateChanged/finished signals (Qt event loop)',
+        ],
+        'explanation': 'Receiver (ibbOpenIqReceived, ibbDataIqReceived, ibbCloseIqReceived), sender (ibbResponseReceived), the two job-list look-ups, writeData, checkData, terminate and the 16-bit '
+                       'sequence accessors are lowered from /repo on every run and verified against contracts taken from XEP-0047 and the property statement. One open finding: the receiver compares the '
+                       '16-bit seq with an int counter that is never reduced mod 65536 (KNOWN-FINDING C19-ibb-seq-wrap, natively reproduced by units/C19/replay_seqwrap.cpp).',
     }
+
+
+def native_replay(rp=None):
+    """run the native driver for the recorded finding against the real library built from the working tree"""
+    from vlib import native
+    rc, out = native.run_driver(os.path.join(HERE, 'replay_seqwrap.cpp'), timeout=900)
+    return rc == 1 and 'REPRODUCED' in out and 'NOT-REPRODUCED' not in out, out
